@@ -441,6 +441,47 @@ def r03h(ctx, rep, cr, cg):
     rep.floor('R03h', 'inserts into DistributedTransaction.votes', n, 1)
 
 
+NARROWING = re.compile(r'Iterator::(filter|filter_map|skip|skip_while|take|take_while|step_by|flat_map|find)$')
+
+
+def r03i(ctx, rep, cr):
+    rep.rule('R03i', 'the participant locks every key the transaction touches: in TxParticipant::prepare the key list handed to '
+                     'LockManager::try_lock is built from request.operations by mapping each operation to its affected_key, with no '
+                     'narrowing adaptor (filter, filter_map, skip, take, …) on the way — abort / cleanup / recover restore the undo '
+                     'pre-image of every operation unconditionally, so an unlocked key can be overwritten by another transaction\'s commit '
+                     'and then reverted by a late abort')
+    f = rep.require_fn('R03i', cr, T.PART + 'prepare')
+    if f is None:
+        return
+    defs = A.Defs(f)
+    tl = A.calls_to(f, ('re', r'LockManager::try_lock\w*$'))
+    if not tl:
+        rep.violation('R03i', f, 'no-lock', f.loc(), 'anchor-missing: prepare no longer calls LockManager::try_lock')
+        return
+    for k, c in enumerate(tl):
+        keys = c.args[2] if len(c.args) > 2 else None
+        if keys is None or keys[0] == 'k':
+            rep.unresolved_instance('R03i', f, 'try_lock#%d' % k, 'key argument not recognised')
+            continue
+        sl = A.backward_slice(f, [keys], defs)
+        narrowing = sorted(x for x in sl.calls if NARROWING.search(x))
+        from_ops = any(x.endswith('PrepareRequest.operations') for x in sl.fields)
+        # the mapping closure calls affected_key
+        maps_key = False
+        for h in A.with_closures(cr.fns, f.name):
+            if h.name != f.name and A.calls_to(h, ('re', r'Transaction::affected_key$')):
+                maps_key = True
+        if from_ops and maps_key and not narrowing:
+            rep.holds('R03i', f, 'try_lock#%d' % k, 'keys = operations.map(affected_key), unfiltered')
+        elif not from_ops or not maps_key:
+            rep.violation('R03i', f, 'lock-keys-source', f.loc(c.line), 'the locked key list is not derived from request.operations through affected_key')
+        else:
+            rep.violation('R03i', f, 'lock-keys-narrowed', f.loc(c.line),
+                          'the key list that is locked passes through %s: some operations\' keys are not locked although their pre-image is '
+                          'recorded and restored on abort — a concurrent transaction commits a write to such a key and a delayed abort of '
+                          'this one reverts it on this shard only' % ', '.join(lib.short(x) for x in narrowing))
+
+
 def run(ctx, rep):
     cr = ctx.crate('tensor_chain')
     cg = ctx.callgraph(['tensor_chain'])
@@ -451,5 +492,6 @@ def run(ctx, rep):
     r03e(ctx, rep, cr)
     r03g(ctx, rep, cr)
     r03h(ctx, rep, cr, cg)
+    r03i(ctx, rep, cr)
     import c13
     c13.r13d(ctx, rep, cr)   # the decision never changes afterwards: no phase regression behind a logged decision
